@@ -878,6 +878,51 @@ func (vc *VC) loopHeader(b *ssa.BasicBlock, inEdges []Term, inPreds []*ssa.Basic
 	if vc.con != nil && len(vc.con.Props) > 0 {
 		props = vc.con.Props
 	}
+	// automatic exit-shape obligations for the loops of functions that carry a property contract: a loop
+	// that is left only by exhaustion today must not acquire a `break` or an inner `return` unnoticed
+	// (continue -> break and early-return slips). Named by the loop's ordinal, not its text.
+	if vc.con != nil && len(vc.con.Props) > 0 && !(ls != nil && (ls.NoBreak != nil || ls.Complete != nil)) {
+		var done *ssa.BasicBlock
+		for _, s := range b.Succs {
+			if !vc.loopBlks[h][s.Index] {
+				done = s
+			}
+		}
+		brk, ret := Term("true"), Term("true")
+		for _, lb := range vc.fn.Blocks {
+			if !vc.loopBlks[h][lb.Index] || lb.Index == h {
+				continue
+			}
+			for _, s := range lb.Succs {
+				if vc.loopBlks[h][s.Index] {
+					continue
+				}
+				if len(s.Instrs) > 0 {
+					if _, isPanic := s.Instrs[len(s.Instrs)-1].(*ssa.Panic); isPanic && len(s.Succs) == 0 {
+						continue
+					}
+				}
+				if s == done {
+					brk = "false"
+				} else {
+					ret = "false"
+				}
+			}
+		}
+		ord := 0
+		for i, hh := range vc.loopHeadsInSourceOrder() {
+			if hh == h {
+				ord = i + 1
+			}
+		}
+		// leaving a loop over a map early makes the outcome depend on the iteration order of that run (C02)
+		pr := vc.con.Props
+		if vc.inMapRange(h) {
+			pr = append(append([]string{}, pr...), "C02")
+		}
+		vc.checkG("loop-nobreak", token.NoPos, fmt.Sprintf("loop #%d", ord), "true", brk, pr)
+		vc.checkG("loop-noreturn", token.NoPos, fmt.Sprintf("loop #%d", ord), "true", ret, pr)
+	}
 	if ls != nil && ls.NoBreak != nil {
 		// no `break`: an exit of the natural loop from a block other than the header must not lead to
 		// the block the header exits to (a `return` in the body is allowed)
@@ -1507,4 +1552,46 @@ func lastPos(b *ssa.BasicBlock) token.Pos {
 		}
 	}
 	return token.NoPos
+}
+
+// loopHeadsInSourceOrder: loop headers ordered by the position of their source loop (unknown last).
+func (vc *VC) loopHeadsInSourceOrder() []int {
+	hs := append([]int{}, vc.loopHeads...)
+	pos := func(h int) token.Pos {
+		if l := vc.hdrSrc[h]; l != nil {
+			return l.Pos()
+		}
+		return token.Pos(1 << 30)
+	}
+	sort.Slice(hs, func(i, j int) bool {
+		if pos(hs[i]) != pos(hs[j]) {
+			return pos(hs[i]) < pos(hs[j])
+		}
+		return hs[i] < hs[j]
+	})
+	return hs
+}
+
+// inMapRange: loop h, or a loop around it, ranges over a map.
+func (vc *VC) inMapRange(h int) bool {
+	for h2, set := range vc.loopBlks {
+		if h2 != h && !set[h] {
+			continue
+		}
+		for _, b := range vc.fn.Blocks {
+			if b.Index != h2 {
+				continue
+			}
+			for _, ins := range b.Instrs {
+				if nx, ok := ins.(*ssa.Next); ok {
+					if r, ok := nx.Iter.(*ssa.Range); ok {
+						if _, isMap := r.X.Type().Underlying().(*types.Map); isMap {
+							return true
+						}
+					}
+				}
+			}
+		}
+	}
+	return false
 }
